@@ -41,8 +41,18 @@ BAD_LINKS = ['int', 'none', 'object', 'wrong-param', 'two-params', 'zero-params'
 def cases_(draw):
     big = draw(st.integers(0, 12)) == 0
     sizes = (0, 1, 2, 3, 5) if not big else (2, 101, 150)
-    pkg = draw(gp.input_package(1, 3, sizes=sizes, types=gp.IN_TYPES + ['array', 'object']))
-    prog = draw(gp.programs(2, 8, pkg=pkg))
+    focused = gen.rare(draw, 300)
+    pkg = draw(gp.input_package(2 if focused else 1, 3, sizes=sizes if not focused else (1, 2, 3, 5),
+                                types=gp.IN_TYPES + ['array', 'object']))
+    if focused:
+        # focused class: small catalogues of steps that keep / index / copy rows (join with the source kept, duplicate,
+        # sort, concatenate, a dump) interleaved with in-place editors, so that every such pair occurs often
+        kinds = draw(st.sampled_from([['join', 'row_fn'], ['duplicate', 'row_fn'], ['join', 'row_fn'],
+                                      ['join', 'duplicate', 'row_fn', 'sort_rows', 'concatenate', 'dump_to_path',
+                                       'add_field', 'find_replace']]))
+        prog = draw(gp.programs(2, 5, pkg=pkg, kinds=kinds))
+    else:
+        prog = draw(gp.programs(2, 8, pkg=pkg))
     n = len(prog['steps'])
     cuts = sorted(draw(st.lists(st.integers(1, max(1, n - 1)), max_size=3, unique=True))) if n > 1 else []
     # nesting: a list of (start, end) groups to wrap into sub-Flows, possibly nested once more
